@@ -28,7 +28,7 @@ def run(prop, tier, seed):
                           "must_cover": ["PopIndex", "Remove_", "Clear_", "Replace_"]})
             n = "C18_g%s.cfg" % tag
             gens.append({"module": M, "cfg": n, "workers": 4,
-                         "extra_defs": {n: cfg(objects="O3" if quick else "O4", keys="K2" if quick else "K3", maxops=2 if quick else 3, hist=True, dictdecl=d, multi=m)}})
+                         "extra_defs": {n: cfg(objects="O3", keys="K2", maxops=2 if quick else 3, hist=True, dictdecl=d, multi=m)}})
             n = "C18_s%s.cfg" % tag
             gens.append({"module": M, "cfg": n, "workers": 4, "simulate": 400 if quick else 10000, "depth": 12, "seed": seed,
                          "extra_defs": {n: cfg(maxops=8, maxlen=4, hist=True, dictdecl=d, multi=m)}})
